@@ -417,7 +417,9 @@ func judgeFailOpen(r *Run, j *Judged, c *cls) {
 			j.fail("C05", "miss-body-differs", e, "cut-short-clean-end", "the origin's message (sid %d, %d body bytes) was cut short on the wire, yet the forwarded body ended without an error after %d bytes", c.reply.Resp.SID, len(c.reply.Resp.Body), len(e.Body))
 		}
 	}
-	if c.reply != nil && c.reply.Resp != nil && c.reply.Resp.Complete && e.BodyRead && c.B != nil && e.Op.CancelNs == 0 {
+	if c.reply != nil && c.reply.Resp != nil && c.reply.Resp.Complete && e.BodyRead && c.B != nil && e.Op.CancelNs == 0 && !r.tainted(e) {
+		// (after a store read that an injected fault has changed, the provenance marker of what is served may
+		// itself be one of the changed bytes)
 		j.count("C05", "miss-body-differs")
 		if e.BodyErr != "" || !bytes.Equal(e.Body, c.B.Body) {
 			j.fail("C05", "miss-body-differs", e, "", "response forwarded from the origin (sid %d) has body len=%d err=%q, origin sent len=%d", c.B.SID, len(e.Body), e.BodyErr, len(c.B.Body))
@@ -1616,6 +1618,11 @@ func judgeStoreWrites(r *Run, j *Judged, by map[int]*OResp) {
 			o = by[hsid]
 		}
 		e := r.exchFor(s.Owner, s.OwnerOp)
+		if o != nil && (o.SeqResp > s.Seq || (e != nil && r.tainted(e))) {
+			// the provenance marker names a response the origin had not sent yet, or the value descends from bytes
+			// an injected store fault has changed (a flipped digit of the marker itself): not attributable
+			o = nil
+		}
 		if o != nil {
 			if why := storeForbidden(o); why != "" {
 				sig := why
